@@ -90,11 +90,60 @@ def bitop(op, a, b):
     if op == '>>' and not is_sym(b) and b >= 0:
         return _lift(a) / (1 << b)          # z3 Int '/' is floor division for a positive divisor
     if op in '&|^':
+        ba, bb = ubound(a), ubound(b)
+        if ba is not None and bb is not None and max(ba, bb) < 256:
+            # both operands provably in [0, 2^k): exact bitwise encoding by bit decomposition (linear)
+            k = max(ba, bb).bit_length()
+            a, b = _lift(a), _lift(b)
+            tot = None
+            for i in range(max(k, 1)):
+                x = (a / (1 << i)) % 2
+                y = (b / (1 << i)) % 2
+                if op == '^': bit = (x + y) % 2
+                elif op == '&': bit = x * y if False else z3.If(z3.And(x == 1, y == 1), z3.IntVal(1), z3.IntVal(0))
+                else: bit = z3.If(z3.Or(x == 1, y == 1), z3.IntVal(1), z3.IntVal(0))
+                term = bit * (1 << i)
+                tot = term if tot is None else tot + term
+            return tot
         a, b = _lift(a), _lift(b)
         if a.sexpr() > b.sexpr():       # & | ^ are commutative: canonical argument order for the UF
             a, b = b, a
     name = {'&': 'py_and', '|': 'py_or', '^': 'py_xor', '<<': 'py_shl', '>>': 'py_shr', '**': 'py_pow'}[op]
     return _uf(name)(_lift(a), _lift(b))
+
+def ubound(t):
+    """conservative syntactic upper bound u with 0 <= t <= u for a z3 Int term / Python int, or None"""
+    if not is_sym(t):
+        if isinstance(t, bool): return int(t)
+        return t if isinstance(t, int) and t >= 0 else None
+    z3 = _z3()
+    if z3.is_bool(t):
+        return 1
+    if not z3.is_int(t):
+        return None
+    if z3.is_int_value(t):
+        v = t.as_long()
+        return v if v >= 0 else None
+    k = t.decl().kind()
+    ch = t.children()
+    if k == z3.Z3_OP_MOD and z3.is_int_value(ch[1]) and ch[1].as_long() > 0:
+        return ch[1].as_long() - 1
+    if k == z3.Z3_OP_ITE:
+        a, b = ubound(ch[1]), ubound(ch[2])
+        return None if a is None or b is None else max(a, b)
+    if k == z3.Z3_OP_ADD:
+        bs = [ubound(c) for c in ch]
+        return None if any(x is None for x in bs) else sum(bs)
+    if k == z3.Z3_OP_MUL:
+        bs = [ubound(c) for c in ch]
+        if any(x is None for x in bs): return None
+        r = 1
+        for x in bs: r *= x
+        return r
+    if k in (z3.Z3_OP_IDIV, z3.Z3_OP_DIV) and z3.is_int_value(ch[1]) and ch[1].as_long() > 0:
+        a = ubound(ch[0])
+        return None if a is None else a // ch[1].as_long()
+    return None
 
 def pyhash(x):
     if is_sym(x):
